@@ -3,7 +3,8 @@
 //	cd /verif/c01 && go run ./gen
 //
 // writes the zz_*.go files of the harness packages h<pkg>/ below /verif/c01 (one template per
-// family, every arity 2..9). The generated files are kept in the tree; the check itself needs
+// family, every arity 2..9) and helem/e<pkg>/zz_<pkg>_elem.go (the law / definition checks as one generic
+// function over the element type, see elem_tmpl.go). The generated files are kept in the tree; the check itself needs
 // no generation step. Regenerate after changing a template in gen/*_tmpl.go.
 package main
 
@@ -156,6 +157,7 @@ func main() {
 	}
 	for _, p := range pkgs {
 		emit(filepath.Join(dir, "h"+p.P, "zz_"+p.P+".go"), monadTmpl, p)
+		emit(filepath.Join(dir, "helem", "e"+p.P, "zz_"+p.P+"_elem.go"), elemTmpl, p)
 		if p.Builders {
 			emit(filepath.Join(dir, "h"+p.P, "zz_"+p.P+"_builders.go"), builderTmpl, p)
 		}
